@@ -221,26 +221,20 @@ theorem afterLoop_insert (now : Int) (spec document nowV : Val) (ss dfs : Fields
   have hd := upsertIdv_docs ss dfs c3
   have ht := upsertIdv_ttl ss dfs c3
   generalize upsertIdv ss dfs c3 = ic at h hd ht
-  simp only [bind, Except.bind] at h
-  cases he : expandDots (dset "_id" ic.1 ss) with
-  | error e => simp only [he] at h; cases h
-  | ok expanded =>
-    simp only [he] at h
-    generalize applyUpdate _ document nowV true (discardOps (Val.doc expanded)).1 = ab at h
-    cases ab with
-    | error e => cases h
-    | ok built =>
-      dsimp only at h
-      cases hi : insertDoc now ic.2 built with
-      | error e => simp only [hi] at h; cases h
-      | ok p =>
-        obtain ⟨c5, newId⟩ := p
-        simp only [hi, Prod.mk.injEq, Except.ok.injEq] at h
-        obtain ⟨hc, rfl⟩ := h
-        obtain ⟨dd, h1, h2⟩ := insert_fresh_id now ic.2 c5 built newId (ht.trans hn) hi
-        refine ⟨newId, dd, rfl, ?_, h2, rfl, rfl, rfl⟩
-        rw [← hc, ← hd, ← h1]
-        split <;> rfl
+  cases hb : upsertDoc spec document nowV ss ic.1 with
+  | error e => simp only [hb] at h; cases h
+  | ok built =>
+    simp only [hb] at h
+    cases hi : insertDoc now ic.2 built with
+    | error e => simp only [hi] at h; cases h
+    | ok p =>
+      obtain ⟨c5, newId⟩ := p
+      simp only [hi, Prod.mk.injEq, Except.ok.injEq] at h
+      obtain ⟨hc, rfl⟩ := h
+      obtain ⟨dd, h1, h2⟩ := insert_fresh_id now ic.2 c5 built newId (ht.trans hn) hi
+      refine ⟨newId, dd, rfl, ?_, h2, rfl, rfl, rfl⟩
+      rw [← hc, ← hd, ← h1]
+      split <;> rfl
 
 theorem upsert_iff_no_match_main (cfg : Cfg) (now : Int) (c c1 c' : Coll) (fs : Fields) (u : Val)
     (multi : Bool) (sel : List (Val × Val)) (r : UpdateResult)
